@@ -126,9 +126,47 @@ def inDomain (K : Content) (cstr : List (Bytes × List Nat)) : Bool :=
   K.strings.all (fun p => (enc p.2).isSome) && K.labels.all (fun p => p.2.all (fun n => (enc n).isSome))
     && cstr.all (fun p => (enc p.1).isSome)
 
+/-- U+00A5 / U+203E / U+2212 (UTF-8 `C2 A5`, `E2 80 BE`, `E2 88 92`): encodable but folded by the
+codec, outside the property's quantifier. -/
+def hasLossy : Bytes → Bool
+  | 0xC2 :: 0xA5 :: _ => true
+  | 0xE2 :: 0x80 :: 0xBE :: _ => true
+  | 0xE2 :: 0x88 :: 0x92 :: _ => true
+  | _ :: rest => hasLossy rest
+  | [] => false
+
+def lossyCase (K : Content) (cstr : List (Bytes × List Nat)) : Bool :=
+  K.strings.any (fun p => hasLossy p.2) || K.labels.any (fun p => p.2.any hasLossy)
+    || cstr.any (fun p => hasLossy p.1)
+
+/-- The content the image denotes when it carries a c-string pool: data region of the image,
+one pointer per c-string use (read from the image). -/
+def contentOfImage (e : Endian) (K : Content) (cstr : List (Bytes × List Nat)) (img : Bytes) (d : Nat) :
+    Content × List (Nat × Bytes) :=
+  let region := (img.drop 0x20).take d
+  let pool := region.drop K.data.length
+  let cuses := cstr.flatMap (fun p => p.2.map (fun a => (a, p.1)))
+  let cptrs := cuses.map (fun u => (u.1, (wordAt e img (0x20 + u.1)).getD 0))
+  (⟨K.data ++ pool, K.strings, K.pointers ++ cptrs, K.labels⟩, cuses)
+
 def oracleSer (e : Endian) (K : Content) (cstr : List (Bytes × List Nat)) (impl : List String) : String :=
+  if lossyCase K cstr then "ok skip (lossy code point, outside the quantifier)" else
   if !inDomain K cstr then
-    (if impl.getD 1 "" == "panic" then "FAIL panic" else "ok skip (unencodable string)") else
+    -- a string the codec cannot encode: `err` is fine; but whatever `serialize` accepts must
+    -- re-parse to exactly the content that was written
+    if impl.getD 1 "" == "panic" then "FAIL panic" else
+    if impl.getD 1 "" != "ok" then "ok skip (unencodable string rejected)" else
+    match (fieldOf impl "img").bind bytesOfHex with
+    | none => "FAIL serialize accepted a content it cannot represent (no image)"
+    | some img =>
+      if impl.contains "parse-err" then
+        "FAIL serialize accepted a content it cannot represent (the image does not re-parse)" else
+      let d := (wordAt e img 4).getD 0
+      let (K', cuses) := contentOfImage e K cstr img d
+      match judgeObservation K' cuses impl with
+      | some why => "FAIL serialize accepted a content it cannot represent: " ++ why
+      | none => "ok"
+  else
   if impl.getD 1 "" != "ok" then "FAIL serialize did not succeed on an in-domain archive" else
   match (fieldOf impl "img").bind bytesOfHex with
   | none => "FAIL no image"
@@ -140,18 +178,15 @@ def oracleSer (e : Endian) (K : Content) (cstr : List (Bytes × List Nat)) (impl
     | some d =>
       if d < K.data.length ∨ 0x20 + d > img.length then "FAIL header data size" else
       let region := (img.drop 0x20).take d
-      let pool := region.drop K.data.length
       if cstr.isEmpty ∧ d ≠ K.data.length then "FAIL data grew without c-strings" else
       if K.data.length % 4 = 0 ∧ d % 4 ≠ 0 then "FAIL tables not word-aligned although the data is" else
       -- every c-string cell points into the pool, at its NUL-terminated encoding
-      let cuses := cstr.flatMap (fun p => p.2.map (fun a => (a, p.1)))
-      let cptrs := cuses.map (fun u => (u.1, (wordAt e img (0x20 + u.1)).getD 0))
+      let (K', cuses) := contentOfImage e K cstr img d
       let cok := cuses.all (fun u =>
         match wordAt e img (0x20 + u.1), enc u.2 with
         | some p, some b => decide (K.data.length ≤ p) && decide (StrAt region p b)
         | _, _ => false)
       if ¬ cok then "FAIL c-string cell does not point at its string inside the pool" else
-      let K' : Content := ⟨K.data ++ pool, K.strings, K.pointers ++ cptrs, K.labels⟩
       match conformsCheck enc e img K' with
       | some why => "FAIL image does not conform: " ++ why
       | none =>
@@ -196,7 +231,8 @@ def family : Family where
     | [_, "ser", e, d, s, p, l, cs] =>
       let K : Content := ⟨hexOrBad d, parseStrings s, parsePointers p, parseLabels l⟩
       let cstr := parseCStrings cs
-      ((), modelSer (endianOf e) K cstr, oracleSer (endianOf e) K cstr i)
+      ((), (if lossyCase K cstr then "ok lossy-skip" else modelSer (endianOf e) K cstr),
+        oracleSer (endianOf e) K cstr i)
     | [_, "serp", e, d, s, p, l, cs] =>
       let K : Content := ⟨hexOrBad d, parseStrings s, parsePointers p, parseLabels l⟩
       let cstr := parseCStrings cs
